@@ -216,9 +216,15 @@ pub fn c01() -> SeqCheck {
 // ---------------------------------------------------------------------------------------------
 
 pub fn c02() -> SeqCheck {
+    let mut cfgs = modes_general();
+    // orders whose own price differs from the level's: a transaction still carries the level's
+    let mut op = GenCfg::base("off-level-order-prices");
+    op.off_price_pct = 50;
+    op.op_w = [28, 34, 8, 10, 5, 5, 4, 0, 0];
+    cfgs.push(op);
     SeqCheck {
         prop: "C02",
-        cfgs: modes_general(),
+        cfgs,
         judge: |tr, part| {
             let fds = mon::matchacct(tr);
             let mut multi = false;
